@@ -124,6 +124,34 @@ Fixpoint crun (s : cm) (ops : list cop) : cm * list cres :=
       if is_panic x then (s1, [x]) else let '(s2, xs) := crun s1 r in (s2, x :: xs)
   end.
 
+(* The behaviour before fix F06, kept only so that Props/C08.v can show the theorem tells the two
+   apart: deleting a parent left its children in ParentByChild. *)
+Definition do_del_parent_old (s : cm) (p : N) (close : bool) : cm * cres :=
+  if (p =? 0)%N then (s, RErr) else
+  match plk p (children s) with
+  | None => (s, ROk)
+  | Some mo =>
+      match del_loop close (match mo with Some m => m | None => [] end) (pbc s) (closedl s) with
+      | None => (s, RPanicClose)
+      | Some (_, cl) => (mkcm (prm p (children s)) (pbc s) cl, ROk)
+      end
+  end.
+
+Definition cstep_old (s : cm) (o : cop) : cm * cres :=
+  match o with
+  | DelParent p => do_del_parent_old s p false
+  | DelCloseParent p => do_del_parent_old s p true
+  | _ => cstep s o
+  end.
+
+Fixpoint crun_old (s : cm) (ops : list cop) : cm * list cres :=
+  match ops with
+  | [] => (s, [])
+  | o :: r =>
+      let '(s1, x) := cstep_old s o in
+      if is_panic x then (s1, [x]) else let '(s2, xs) := crun_old s1 r in (s2, x :: xs)
+  end.
+
 (* the two maps agree: a child points at a parent exactly when that parent's map holds the child *)
 Definition consistent (s : cm) : Prop :=
   forall c p, mlk c (pbc s) = Some p <-> exists m ch, plk p (children s) = Some (Some m) /\ mlk c m = Some ch.
